@@ -1762,7 +1762,31 @@ impl DB {
         }
 
         mutex_guard.background_compaction_scheduled = true;
+        #[cfg(feature = "verif")]
+        DB::verif_sched_event(db_state, mutex_guard, "schedule");
         true
+    }
+
+    /// Record a step of the scheduling protocol (must be called with the mutex held).
+    #[cfg(feature = "verif")]
+    pub(crate) fn verif_sched_event(
+        db_state: &PortableDatabaseState,
+        mutex_guard: &MutexGuard<GuardedDbFields>,
+        kind: &'static str,
+    ) {
+        crate::verif::event(
+            db_state.options.db_path(),
+            crate::verif::Event::Sched {
+                kind,
+                scheduled: mutex_guard.background_compaction_scheduled,
+                imm: mutex_guard.maybe_immutable_memtable.is_some(),
+                manual: mutex_guard.maybe_manual_compaction.is_some(),
+                needs_compaction: mutex_guard.version_set.needs_compaction(),
+                bad: mutex_guard.maybe_bad_database_state.is_some(),
+                shutting_down: db_state.is_shutting_down.load(Ordering::Acquire),
+                level0_files: mutex_guard.version_set.num_files_at_level(0),
+            },
+        );
     }
 
     /**
